@@ -374,7 +374,8 @@ func (g *treeGen) tree() *TreeIn {
 
 // recTree: a recursive package, an explicitly listed sub-package of it, and unrelated siblings.
 func (g *treeGen) recTree() *TreeIn {
-	t := &TreeIn{Root: g.cfg("root", false), Dirs: []string{"p0", "p0/sub", "p0/sub/deep", "p0/other", "q", "q/inner"}}
+	// p0/subx: a sibling of p0/sub whose path has p0/sub as a plain string prefix; never listed itself
+	t := &TreeIn{Root: g.cfg("root", false), Dirs: []string{"p0", "p0/sub", "p0/sub/deep", "p0/subx", "p0/other", "q", "q/inner"}}
 	delete(t.Root, "exclude-subpkg-regex")
 	mk := func(path, level string, recursive bool, null bool) PkgIn {
 		p := PkgIn{Path: "example.com/m/" + path}
@@ -393,7 +394,7 @@ func (g *treeGen) recTree() *TreeIn {
 	}
 	t.Packages = append(t.Packages, mk("p0", "p0", true, false))
 	if g.r.Intn(3) != 0 {
-		t.Packages = append(t.Packages, mk("p0/sub", "p0/sub", g.r.Intn(4) == 0, g.r.Intn(2) == 0))
+		t.Packages = append(t.Packages, mk("p0/sub", "p0/sub", g.r.Intn(2) == 0, g.r.Intn(3) == 0))
 	}
 	if g.r.Intn(3) == 0 {
 		t.Packages = append(t.Packages, mk("p0/other", "p0/other", false, g.r.Intn(2) == 0))
